@@ -1,4 +1,4 @@
-SPECIFICATION FairSpec
+SPECIFICATION Spec
 CONSTANTS
   MaxEvents = 2
   Faithful = FALSE
@@ -8,5 +8,5 @@ CONSTANTS
   BodyFaults = {"gzip"}
   ParseFaults = {"garbage"}
 INVARIANTS TypeOK ErrorMeansNoEffects SuccessMeansAllTried PerEventExact NoListElsewhere ExactlyOneStatus EffectsAreTheEvents FaultFreeSucceeds FaultMeansError BatchesInOrder
-PROPERTIES NothingAfterAnswer StatusStable Answered
+PROPERTIES NothingAfterAnswer StatusStable
 CHECK_DEADLOCK FALSE
